@@ -487,6 +487,14 @@ DynDepsMissing ==
              [St1(2, <<"o2">>, <<"s2">>, <<"dd">>) EXCEPT !.dd = "dd"],
              [St1(3, <<"o3">>, <<"s2">>, <<>>) EXCEPT !.im = <<"o2">>, !.deps = d, !.hdrs = <<"h">>],
              St1(4, <<"o4">>, <<"o3">>, <<>>) >>) : d \in {"depfile", "gcc"} }
+\* restat that only the dyndep file declares: the bound statement re-ran once without changing its output (its log record is
+\* newer than the output); then the dyndep file is rebuilt, so at scan time the restat flag is unknown and the statement
+\* looks out of date, while the re-scan after the load knows better - it is wanted all the same and its consumer must wait
+DynRestatRescan ==
+  Graph(<< [St1(1, <<"dd">>, <<"s1">>, <<>>) EXCEPT !.mkdd = "dd"],
+           [St1(2, <<"o2">>, <<"s2">>, <<"dd">>) EXCEPT !.dd = "dd", !.ddr = TRUE],
+           St1(3, <<"o3">>, <<"s3">>, <<>>),
+           St1(4, <<"o4">>, <<"o2", "o3">>, <<>>) >>)
 DynVariants(gr) == {gr} \cup {[gr EXCEPT !.stmts = [i \in DOMAIN gr.stmts |-> IF i = k /\ gr.stmts[i].mkdd = "" THEN [gr.stmts[i] EXCEPT !.restat = TRUE] ELSE gr.stmts[i]]] : k \in DOMAIN gr.stmts}
 FamDyn(K, CH) ==
   UNION { {ScnT(gr, <<Build(Roots(gr), j, 1), c, Build(Roots(gr), j, 1), Build(Roots(gr), j, 1)>>, "dyn") : j \in {1, 2, 3}, c \in Pick(CH, Changes(gr))}
@@ -495,6 +503,8 @@ FamDyn(K, CH) ==
   \cup UNION { {ScnT(gr, <<Build(Roots(gr), j, 1), [op |-> o, f |-> "s1"], Build(Roots(gr), j, 1), Build(Roots(gr), j, 1)>>, "dyn") : j \in {1, 2}, o \in {"touch", "edit"}} : gr \in DynRestatGraphs }
   \cup UNION { {Scn(gr, <<Build(Roots(gr), 2, 1), (IF gr.stmts[3].deps = "depfile" THEN [op |-> "del", f |-> "o3.d"] ELSE [op |-> "dropdeps"]), [op |-> "edit", f |-> "h"], [op |-> "touch", f |-> "s1"],
                           Build(Roots(gr), j, 1), Build(Roots(gr), j, 1)>>) : j \in {1, 2}} : gr \in DynDepsMissing }
+  \cup {Scn(DynRestatRescan, <<Build(<<"o4">>, 2, 1), [op |-> "touch", f |-> "s2"], Build(<<"o4">>, 2, 1), [op |-> "touch", f |-> "s1"], [op |-> "touch", f |-> "s3"],
+                                Build(<<"o4">>, j, 1), Build(<<"o4">>, j, 1)>>) : j \in {2, 3}}
   \cup {ScnT(DynDeep, <<Build(<<"out">>, j, 1), c, Build(<<"out">>, j, 1), Build(<<"out">>, j, 1), Build(Roots(DynDeep), 2, 1)>>, "dyn") :
           j \in {1, 2}, c \in {x \in Changes(DynDeep) : x.op \in {"touch", "edit"}}}
 
